@@ -425,6 +425,7 @@ class Ctx(object):
         self.rnd = rnd
         self.run = run
         self.cfg = cfg
+        self.history = []     # records issued so far (for repeated calls)
 
     def live(self):
         return self.run.live()
@@ -941,7 +942,8 @@ for _n in ("ortho_left", "ortho_right", "ortho"):
 def _op_vec_vec(ctx, need_two=True):
     """(operator slot, vector slot, vector slot) with matching dims, or None."""
     L = [i for i in ctx.live() if ctx.tame(i)]
-    ops = [i for i in L if is_square(ctx.meta(i)) and closed(ctx.meta(i)) and not is_vec(ctx.meta(i)) and max(ctx.meta(i)[3]) <= 6]
+    ops = [i for i in L if is_square(ctx.meta(i)) and closed(ctx.meta(i)) and not is_vec(ctx.meta(i)) and max(ctx.meta(i)[3]) <= 6
+           and int(np.prod(ctx.meta(i)[1])) <= 512 and ctx.meta(i)[0] <= 6]
     ctx.rnd.shuffle(ops)
     for o in ops:
         dims = ctx.meta(o)[1]
@@ -1146,8 +1148,9 @@ def _ode_tdvp():
 @op("ode_splitting", roles=("initial_value",), group="ode", weight=1.5)
 def _ode_splitting():
     def choose(ctx):
-        a = ctx.pick(lambda m: is_vec(m) and closed(m) and m[0] >= 2 and len(set(m[1])) == 1 and max(m[3]) <= 6)
-        if a is None:
+        a = ctx.pick(lambda m: is_vec(m) and closed(m) and m[0] >= 2 and len(set(m[1])) == 1 and max(m[3]) <= 6 and
+                     max(m[1]) <= 4 and m[0] <= 6)
+        if a is None or not ctx.tame(a):
             return None
         r = ctx.rnd
         args = {"which": r.choice(("lie", "strang", "yoshida", "kahan_li")), "hom": r.random() < 0.5, "rank": r.randint(1, 2),
@@ -1477,6 +1480,7 @@ def swarm_config(seed, faults):
         "length": rnd.choice((3, 5, 8, 12, 20, 40)),
         "groups": groups,
         "directed_p": rnd.choice((0.0, 0.3, 0.5, 0.8)),
+        "repeat_p": rnd.choice((0.0, 0.1, 0.1, 0.3)),
         "fault_rate": (rnd.choice((0.05, 0.15, 0.4)) if faults else 0.0),
         "fault_kinds": (rnd.choice((["F-gesdd"], ["F-gesdd", "F-kernel"], ["F-gesdd", "F-kernel", "F-stdout"], ["F-kernel"], ["F-stdout"]))
                         if faults else []),
@@ -1578,6 +1582,18 @@ def _choose(ctx):
         if rec is not None:
             run.probes["directed_choice"] += 1
             return rec
+    if ctx.history and rnd.random() < cfg.get("repeat_p", 0.0):
+        # the same call once more, with identical arguments (same sub-seed => same generated data): results of two
+        # identical calls must be independent objects (caches, memoised cores, module-level state)
+        prev = rnd.choice(ctx.history)
+        spec = OPS.get(prev["op"])
+        if spec is not None and not (spec["inplace"](prev) if callable(spec["inplace"]) else spec["inplace"]):
+            rec = copy.deepcopy(prev)
+            rec.pop("faults", None)
+            rec["dest"] = ctx.dest(len(prev.get("dest", ())))
+            rec["repeat"] = True
+            run.probes["repeated_call"] += 1
+            return rec
     names = list(OPS)
     weights = [OPS[n]["weight"] * cfg["groups"].get(OPS[n]["group"], 1.0) for n in names]
     for _ in range(12):
@@ -1599,7 +1615,8 @@ def generate_and_run(seed, faults, keep_events=False):
     try:
         for _ in range(cfg["length"]):
             rec = _choose(ctx)
-            rec["sub_seed"] = rnd.getrandbits(32)
+            fresh = rnd.getrandbits(32)
+            rec.setdefault("sub_seed", fresh)
             if rec["op"] != "new":
                 fl = _faults(rnd, cfg)
                 if fl:
@@ -1607,6 +1624,8 @@ def generate_and_run(seed, faults, keep_events=False):
                 if cfg.get("clock_jumps"):
                     rec["clock_seed"] = rnd.getrandbits(32)
             records.append(rec)
+            if rec["op"] != "new":
+                ctx.history.append(rec)
             run.step(rec)
     except Violation as v:
         viol = v
